@@ -1,5 +1,5 @@
 """C10: check configuration (PROP) and MANIFEST texts (TEXT)."""
-PROP = {'n_quick': 70,
+PROP = {'tables': ['C14', 'C15', 'C16', 'C17'], 'n_quick': 70,
  'n_thorough': 2000,
  'audit': 14,
  'audit_maxlen': 1800,
